@@ -23,7 +23,7 @@ RULE = (
     "None, Vector, Orientation); optional mutate, static require, modular scenarios; 3/4 of the programs "
     "have behaviours drawing such values at every step (also in sub-behaviours under do / do choose / do "
     "shuffle, monitors, require[p] and hard require at run time, random terminate), records and "
-    "termination conditions. Faults: every truncation point of each scene encoding and of each replay, "
+    "termination conditions. Faults: every truncation point of each scene encoding, every truncation point of each replay up to a cap (quick 160 / thorough 1200 points: the first third exhaustively, the rest sampled), "
     "random + structured single-byte corruptions, cross-decoding with the neighbouring program, with "
     "mode2D / param override / other modular scenario variants and an all-pairs matrix of compile options; "
     "divergence: every (object, dynamic property) x tolerance {0, 1e-3, 0.5} x offset {+-0.5 tol, +-2 tol} x "
@@ -45,31 +45,47 @@ MIN_COUNTERS = {
         "corruptions_scene": 3000,
         "cross_decodes": 60,
         "sim_replays": 40,
-        "truncations_replay": 1000,
+        "truncations_replay": 3000,
         "corruptions_replay": 1000,
         "divergence_cases": 300,
         "divergence_expected_reported": 100,
         "divergence_expected_silent": 100,
-        "values_written": 2000,
+        "scene_values_encoded": 1000,
+        "runtime_values_recorded": 1500,
         "int_2byte": 20,
         "int_4byte": 20,
         "int_big": 20,
+        "written_str": 20,
+        "written_bytes": 20,
+        "written_bool": 20,
+        "written_NoneType": 20,
+        "written_Vector": 20,
+        "written_Orientation": 20,
+        "written_float": 100,
     },
     "thorough": {
-        "scene_roundtrips": 1500,
-        "truncations_scene": 60000,
-        "corruptions_scene": 60000,
-        "cross_decodes": 1500,
+        "scene_roundtrips": 1000,
+        "truncations_scene": 200000,
+        "corruptions_scene": 100000,
+        "cross_decodes": 1000,
         "sim_replays": 800,
-        "truncations_replay": 20000,
-        "corruptions_replay": 20000,
-        "divergence_cases": 2000,
-        "divergence_expected_reported": 600,
-        "divergence_expected_silent": 600,
-        "values_written": 40000,
-        "int_2byte": 400,
-        "int_4byte": 400,
-        "int_big": 400,
+        "truncations_replay": 60000,
+        "corruptions_replay": 40000,
+        "divergence_cases": 900,
+        "divergence_expected_reported": 400,
+        "divergence_expected_silent": 300,
+        "scene_values_encoded": 8000,
+        "runtime_values_recorded": 10000,
+        "int_2byte": 200,
+        "int_4byte": 200,
+        "int_big": 200,
+        "written_str": 200,
+        "written_bytes": 200,
+        "written_bool": 200,
+        "written_NoneType": 200,
+        "written_Vector": 200,
+        "written_Orientation": 200,
+        "written_float": 1000,
     },
 }
 
@@ -307,6 +323,7 @@ def check_program(ctx, idx, prev):
             continue
         wser = ctx.mon.last()
         wlog = list(wser._vlog)
+        ctx.bump("scene_values_encoded", len(wlog))
         stream = lib.RecordingStream(data)
         out, scene2 = guarded(lambda: sc.sceneFromBytes(stream))
         rser = ctx.mon.last()
@@ -443,7 +460,6 @@ def check_simulation(ctx, prog, sc, scene, scene_data, idx, k, mutated, rng):
     steps = prog["steps"]
     divcheck = (idx + k) % 2 == 0
     su.seed_all(scene_seed(ctx.seed, idx, k) + 17)
-    lib.install_helper().NOTES.clear()
     simulator = lib.make_state_simulator()
     out, sim1 = guarded(lambda: simulator.simulate(scene, maxSteps=steps, maxIterations=30, enableDivergenceCheck=divcheck, verbosity=0), 20)
     if out == "SE":
@@ -457,16 +473,18 @@ def check_simulation(ctx, prog, sc, scene, scene_data, idx, k, mutated, rng):
     if sim1 is None:
         ctx.skip("simulation_rejected_30_times")
         return
-    notes1 = list(lib.install_helper().NOTES)
+    notes1 = lib.install_helper().notes_of(sim1)  # (rejected iterations of simulate() also drew values)
     d1 = lib.dump_sim(sim1)
     wlog = list(sim1._replayOut._vlog)
     replay = sim1.getReplay()
-    full = sc.simulationToBytes(sim1)
+    out, full = guarded(lambda: sc.simulationToBytes(sim1))
+    if out != "ok":
+        ctx.viol(None, "simulate", f"simulationToBytes raised {type(full).__name__}: {full}", W)
+        return
     ctx.bump("term_" + d1["terminationType"])
     ctx.bump("runtime_values_recorded", len(wlog))
 
     def run_replay(how, data=None, **kw):
-        lib.install_helper().NOTES.clear()
         su.seed_all(12345)  # a replay must not depend on the RNG state
         sim_ = lib.make_state_simulator()
         if how == "bytes":
@@ -488,16 +506,18 @@ def check_simulation(ctx, prog, sc, scene, scene_data, idx, k, mutated, rng):
             ctx.viol(None, "replay-dump", f"replay ({how}) differs from the original at {lib.first_diff(d1, d2)}", {**W, "how": how})
         else:
             ctx.bump("replay_equal")
-        if list(lib.install_helper().NOTES) != notes1:
+        if lib.install_helper().notes_of(sim2) != notes1:
             ctx.viol(None, "replay-monitor-values", f"values drawn by the monitor differ in the replay ({how})", {**W, "how": how})
         rlog = list(sim2._replayIn._vlog)
-        if rlog != wlog:
+        # values of type None occupy zero bytes: a trailing run of them lies "past the end" of the
+        # recording and is legitimately re-sampled instead of read
+        rest = wlog[len(rlog):]
+        if rlog != wlog[: len(rlog)] or any(e[1] != "NoneType" for e in rest):
             ctx.viol(None, "replay-log", f"replay ({how}) read log differs from the recording's write log: {lib.first_diff(list(map(list, wlog)), list(map(list, rlog)))}", {**W, "how": how})
         if sim2.getReplay() != replay:
             ctx.viol(None, "replay-rerecord", f"the replay ({how}) records different replay data than the original", {**W, "how": how})
     # continue past the end of the recording: the common prefix must be identical
     if d1["terminationType"] == "timeLimit":
-        lib.install_helper().NOTES.clear()
         out, sim3 = guarded(lambda: lib.make_state_simulator().replay(scene, replay, maxSteps=steps + 2, maxIterations=1, verbosity=0), 20)
         ctx.bump("replay_continued_past_end")
         if out == "ok" and sim3 is not None:
@@ -512,8 +532,10 @@ def check_simulation(ctx, prog, sc, scene, scene_data, idx, k, mutated, rng):
     # ---- truncation of the replay data: every point
     hdr = 6
     pts = range(len(replay))
-    if tier == "quick" and len(replay) > 400:
-        pts = sorted(set(list(range(0, 120)) + rng.sample(range(120, len(replay)), 280)))
+    cap = 160 if tier == "quick" else 1200
+    if len(replay) > cap:
+        head = cap // 3
+        pts = sorted(set(list(range(0, head)) + rng.sample(range(head, len(replay)), cap - head)))
     bounds = _value_boundaries(sim1)
     for n in pts:
         cut = replay[:n]
@@ -526,7 +548,10 @@ def check_simulation(ctx, prog, sc, scene, scene_data, idx, k, mutated, rng):
             if n >= hdr and n in bounds:
                 ctx.bump("truncation_replay_at_boundary_continued")
             else:
-                last = v._replayIn._vlog[-1][1] if v is not None and v._replayIn._vlog else None
+                import io as _io
+
+                rd = [x for x in ctx.mon.created[-3:] if isinstance(x.stream, _io.BufferedReader)]
+                last = rd[-1]._vlog[-1][1] if rd and rd[-1]._vlog else None
                 key = "codec.short-read-undetected" if last in ("int", "bool", "str", "bytes") else None
                 ctx.viol(key, "truncation-replay", f"replay of {len(replay)} bytes truncated inside a value at {n} was accepted (last value read: {last})", {**W, "n": n})
         elif out == "exc":
@@ -632,7 +657,11 @@ def option_matrix(ctx):
             continue
         su.seed_all(ctx.seed + 5)
         scene, _ = sc.generate(maxIterations=50)
-        compiled.append((name, over, sc, sc.sceneToBytes(scene), ctx.lib.dump_scene(scene)))
+        out, data = guarded(lambda: sc.sceneToBytes(scene))
+        if out != "ok":
+            ctx.viol(None, "options-matrix", f"sceneToBytes raised {type(data).__name__}: {data} (options {name})", {"a": name, "b": name})
+            continue
+        compiled.append((name, over, sc, data, ctx.lib.dump_scene(scene)))
     for na, oa, sa, da, dumpa in compiled:
         for nb, ob, sb, db, dumpb in compiled:
             if na == nb:
@@ -707,14 +736,18 @@ def run_divergence(ctx, cases):
     from scenic.core.simulators import DivergenceError
 
     lib = ctx.lib
-    sc = su.compile_scenic(DIV_PROGRAM)
-    su.seed_all(ctx.seed)
-    scene, _ = sc.generate()
     steps = 4
-    su.seed_all(ctx.seed + 1)
-    sim1 = lib.make_state_simulator().simulate(scene, maxSteps=steps, enableDivergenceCheck=True)
-    replay = sim1.getReplay()
-    d1 = lib.dump_sim(sim1)
+    try:
+        sc = su.compile_scenic(DIV_PROGRAM)
+        su.seed_all(ctx.seed)
+        scene, _ = sc.generate()
+        su.seed_all(ctx.seed + 1)
+        sim1 = lib.make_state_simulator().simulate(scene, maxSteps=steps, enableDivergenceCheck=True)
+        replay = sim1.getReplay()
+        d1 = lib.dump_sim(sim1)
+    except Exception as e:  # noqa
+        ctx.viol(None, "divergence-setup", f"recording a simulation with enableDivergenceCheck raised {type(e).__name__}: {e}", {"case": cases[0] if cases else None})
+        return
     scalar_props = {"speed", "angularSpeed", "yaw", "pitch", "roll", "temp", "charge"}
     for c in cases:
         off = {"obj": c["obj"], "prop": c["prop"], "delta": c["delta"], "dir": c["dir"], "from": c["from"]}
@@ -768,8 +801,12 @@ def run_divergence(ctx, cases):
 
 
 def plan(tier, seed):
-    nshards = 16 if tier == "quick" else 64
-    nprog = 48 if tier == "quick" else 960
+    nshards = 12 if tier == "quick" else 32
+    nprog = 48 if tier == "quick" else 256
+    import os
+
+    if os.environ.get("VERIF_C18_NPROG"):  # development aid (MIN_COUNTERS then make the run INCONCLUSIVE)
+        nprog = int(os.environ["VERIF_C18_NPROG"])
     cases = divergence_cases(seed, tier)
     shards = []
     for s in range(nshards):
